@@ -220,7 +220,9 @@ def _build_datatypes(
         }
         elem.attrib.update(type_attrs.get(attrtype, {}))
 
-        if isinstance(attrdef, rq.AttributeDefinitionEnumeration):
+        if attrtype == "ENUMERATION" and isinstance(
+            attrdef, rq.AttributeDefinitionEnumeration
+        ):
             values = etree.Element("SPECIFIED-VALUES")
             for i in attrdef.data_type.values if attrdef.data_type else ():
                 v = etree.Element("ENUM-VALUE")
